@@ -628,7 +628,7 @@ Proof.
            change (zlen (@nil Z)) with 0 in E. unfold lsize in *. lia.
         -- cbn [find_crlf] in E3. rewrite gnc_loop_finished in E3 by exact Hfin. inversion E3; subst s3.
            destruct (compact_props s1 ltac:(unfold WF; splits; auto; lia)) as (HWFc & _ & _ & Hremc & Hcurc).
-           unfold Fin. splits; auto; [rewrite Hremc; exact Hrem|].
+           unfold Fin. splits; auto; try (rewrite Hremc; exact Hrem).
            exists [10]. unfold compact, set_line. cbn [c_cursor c_line]. rewrite zdrop_nonpos by lia. rewrite E. reflexivity.
         -- cbn in E3. inversion E3; subst s3. unfold Fin, WF, lsize. cbn [c_line c_cursor c_cap c_err c_finish c_ps c_remain].
            assert (Hl2 : zlen (zdrop (c_cursor s1) (c_line s1)) = 2) by (rewrite E; reflexivity).
@@ -679,8 +679,8 @@ Proof.
               set (n' := Z.min (count - n1 - r) (zlen payload - (n1 + r))) in *.
               assert (Hn : n = n1 + r + n') by (unfold n, n'; lia).
               exists s'. rewrite Hn. splits; try lia.
-              ** f_equal. f_equal; [f_equal; lia|].
-                 rewrite <- !app_assoc. f_equal. rewrite Hout. rewrite (ztake_add (n1 + r) n') by (unfold n'; lia). reflexivity.
+              ** f_equal. f_equal. f_equal; [lia|].
+                 rewrite <- !app_assoc. f_equal. rewrite app_assoc, Hout. rewrite (ztake_add (n1 + r) n') by (unfold n'; lia). reflexivity.
               ** rewrite zdrop_zdrop in HPost' by (unfold n'; lia). replace (n1 + r + n') with (n' + (n1 + r)) by lia. exact HPost'.
               ** intros Hlt. apply Hfin'. lia.
         -- (* the chunk is not exhausted: count is *)
@@ -692,8 +692,8 @@ Proof.
            assert (Hn'0 : n' = 0) by (unfold n'; lia).
            assert (Hn : n = n1 + r + n') by (unfold n; lia).
            exists s'. rewrite Hn. splits; try lia.
-           ++ f_equal. f_equal; [f_equal; lia|].
-              rewrite <- !app_assoc. f_equal. rewrite Hout. rewrite (ztake_add (n1 + r) n') by lia. reflexivity.
+           ++ f_equal. f_equal. f_equal; [lia|].
+              rewrite <- !app_assoc. f_equal. rewrite app_assoc, Hout. rewrite (ztake_add (n1 + r) n') by lia. reflexivity.
            ++ rewrite zdrop_zdrop in HPost' by lia. replace (n1 + r + n') with (n' + (n1 + r)) by lia. exact HPost'.
       * (* count exhausted inside the chunk *)
         change (0 <? 0) with false. cbv beta iota.
@@ -705,7 +705,7 @@ Proof.
         assert (Hn'0 : n' = 0) by (unfold n'; lia).
         assert (Hn : n = n1 + n') by (unfold n; lia).
         exists s'. rewrite Hn. splits; try lia.
-        -- f_equal. f_equal; [f_equal; lia|]. rewrite <- app_assoc. f_equal. unfold p1. rewrite ztake_add by lia. reflexivity.
+        -- f_equal. f_equal. f_equal; [lia|]. rewrite <- app_assoc. f_equal. unfold p1. rewrite ztake_add by lia. reflexivity.
         -- unfold p1 in HPost'. rewrite zdrop_zdrop in HPost' by lia. replace (n1 + n') with (n' + n1) by lia. exact HPost'.
     + (* chunk boundary: fetch the next size line *)
       cbv beta iota. change (0 <? 0) with false. cbv beta iota.
@@ -727,7 +727,139 @@ Proof.
         set (n' := Z.min (count - n1) (zlen payload - n1)) in *.
         assert (Hn : n = n1 + n') by (unfold n, n'; lia).
         exists s'. rewrite Hn. splits; try lia.
-        -- f_equal. f_equal; [f_equal; lia|]. rewrite <- app_assoc. f_equal. unfold p1. rewrite ztake_add by (unfold n'; lia). reflexivity.
+        -- f_equal. f_equal. f_equal; [lia|]. rewrite <- app_assoc. f_equal. unfold p1. rewrite ztake_add by (unfold n'; lia). reflexivity.
         -- unfold p1 in HPost'. rewrite zdrop_zdrop in HPost' by (unfold n'; lia). replace (n1 + n') with (n' + n1) by lia. exact HPost'.
         -- intros Hlt. apply Hfin'. lia.
+Qed.
+
+(* ------------------------------------------------------------- theorem ---- *)
+Lemma ztake_nil {A} n : ztake n (@nil A) = [].
+Proof. unfold ztake. apply firstn_nil. Qed.
+Lemma zdrop_nil {A} n : zdrop n (@nil A) = [].
+Proof. unfold zdrop. apply skipn_nil. Qed.
+
+Lemma crs_read_spec s count payload :
+  Inv s payload -> RemOk s -> 0 <= count ->
+  let n := Z.min count (zlen payload) in
+  exists s', crs_read s count = Some (n, ztake n payload, s')
+    /\ Post s' (zdrop n payload) /\ c_cap s' = c_cap s
+    /\ (zlen payload < count -> c_finish s' = true).
+Proof.
+  intros HInv HRem Hc n. unfold crs_read, crs_read_f.
+  assert (Hfuel : zlen (inp s) + 1 < Z.of_nat (crs_fuel s)).
+  { destruct HInv as ((_ & Hcur & _) & _). unfold crs_fuel, inp.
+    rewrite zlen_app, zlen_zdrop by (unfold lsize in *; lia). unfold zlen in *. unfold lsize, zlen in Hcur. lia. }
+  destruct (loop_spec (crs_fuel s) s count 0 [] payload HInv HRem Hc Hfuel) as (s' & E & H).
+  exists s'. rewrite E. cbn [app]. rewrite Z.add_0_l. split; [reflexivity|exact H].
+Qed.
+
+Lemma crs_read_finished s count : c_finish s = true -> crs_read s count = Some (0, [], s).
+Proof. intros H. unfold crs_read, crs_read_f. apply loop_finished. exact H. Qed.
+
+(* a sequence of reads; None = out of range / fuel *)
+Fixpoint crs_run (s : crs) (counts : list Z) : option (list (Z * bytes) * crs) :=
+  match counts with
+  | [] => Some ([], s)
+  | c :: t => match crs_read s c with
+              | None => None
+              | Some (r, o, s1) =>
+                match crs_run s1 t with
+                | None => None
+                | Some (l, s2) => Some ((r, o) :: l, s2)
+                end
+              end
+  end.
+
+Lemma crs_run_spec : forall counts s payload,
+  Post s payload -> Forall (fun c => 0 <= c) counts ->
+  exists l s', crs_run s counts = Some (l, s')
+    /\ outs l = ztake (zsum counts) payload
+    /\ Forall2 (fun r o => r = zlen o) (rets l) (map snd l)
+    /\ Post s' (zdrop (zsum counts) payload)
+    /\ (zlen payload < zsum counts -> c_finish s' = true).
+Proof.
+  induction counts as [|c t IH]; intros s payload HPost Hall.
+  - exists [], s. cbn [crs_run zsum]. pose proof (zlen_nonneg payload).
+    rewrite ztake_nonpos, zdrop_nonpos by lia. splits; auto; [constructor|lia].
+  - inversion Hall as [|? ? Hc Ht]; subst. cbn [crs_run zsum].
+    pose proof (zsum_nonneg t Ht) as Hst. pose proof (zlen_nonneg payload) as Hpl.
+    destruct HPost as [[HFin Hp]|[HInv HRem]].
+    + pose proof HFin as (Hfin & _). rewrite crs_read_finished by exact Hfin.
+      destruct (IH s payload ltac:(left; split; assumption) Ht) as (l & s' & E & Ho & Hf & HP & Hfi).
+      rewrite E. exists ((0, []) :: l), s'. subst payload. unfold outs, rets in *. cbn [map concat fst snd app].
+      rewrite !ztake_nil in *. rewrite !zdrop_nil in *.
+      split; [reflexivity|]. split; [exact Ho|]. split; [constructor; [reflexivity|exact Hf]|]. split; [exact HP|].
+      * intros _. destruct HP as [[(Hf' & _) _]|[(_ & Hf' & _) _]]; [exact Hf'|].
+        (* a finished stream stays finished *)
+        clear - E Hfin. revert s s' l E Hfin. induction t as [|c' t' IHt]; intros s s' l E Hfin; cbn [crs_run] in E.
+        -- inversion E; subst. exact Hfin.
+        -- rewrite crs_read_finished in E by exact Hfin. destruct (crs_run s t') as [[l' s'']|] eqn:E'; [|discriminate].
+           inversion E; subst. apply (IHt s s' l' E' Hfin).
+    + destruct (crs_read_spec s c payload HInv HRem Hc) as (s1 & E1 & HPost1 & _ & Hfin1).
+      set (n := Z.min c (zlen payload)) in *. rewrite E1.
+      assert (Hn : 0 <= n <= zlen payload /\ n <= c) by (unfold n; lia).
+      destruct (IH s1 (zdrop n payload) HPost1 Ht) as (l & s' & E & Ho & Hf & HP & Hfi).
+      rewrite E. exists ((n, ztake n payload) :: l), s'. unfold outs, rets in *. cbn [map concat fst snd].
+      rewrite zlen_zdrop in Hfi by lia.
+      assert (Hkey : ztake n payload ++ ztake (zsum t) (zdrop n payload) = ztake (c + zsum t) payload).
+      { destruct (Z.le_gt_cases c (zlen payload)) as [Hle|Hgt].
+        - assert (Hnc : n = c) by (unfold n; lia). rewrite Hnc. rewrite ztake_add by lia. reflexivity.
+        - assert (Hnl : n = zlen payload) by (unfold n; lia). rewrite Hnl.
+          rewrite (zdrop_all (zlen payload)) by lia. rewrite ztake_nil, app_nil_r. rewrite !ztake_all by lia. reflexivity. }
+      assert (Hkey2 : zdrop (zsum t) (zdrop n payload) = zdrop (c + zsum t) payload).
+      { rewrite zdrop_zdrop by lia. destruct (Z.le_gt_cases c (zlen payload)) as [Hle|Hgt].
+        - f_equal. unfold n. lia.
+        - rewrite !zdrop_all by (unfold n; lia). reflexivity. }
+      split; [reflexivity|]. split; [rewrite Ho; exact Hkey|].
+      split; [constructor; [rewrite zlen_ztake; lia|exact Hf]|].
+      split; [rewrite <- Hkey2; exact HP|].
+      intros Hlt. destruct (Z.le_gt_cases c (zlen payload)) as [Hle|Hgt].
+      * apply Hfi. unfold n. lia.
+      * specialize (Hfin1 Hgt).
+        clear - E Hfin1. revert s1 s' l E Hfin1. induction t as [|c' t' IHt]; intros s1 s' l E Hfin; cbn [crs_run] in E.
+        -- inversion E; subst. exact Hfin.
+        -- rewrite crs_read_finished in E by exact Hfin. destruct (crs_run s1 t') as [[l' s'']|] eqn:E'; [|discriminate].
+           inversion E; subst. apply (IHt s1 s' l' E' Hfin).
+Qed.
+
+(* valid_chunked wire payload: RFC 7230 4.1 without trailers *)
+Inductive valid_chunked : bytes -> bytes -> Prop :=
+| VC_last line : line <> [] -> size_line line 0 ->
+    valid_chunked (line ++ CRLF ++ CRLF) []
+| VC_chunk line data rest payload :
+    0 < zlen data < W64 -> size_line line (zlen data) -> valid_chunked rest payload ->
+    valid_chunked (line ++ CRLF ++ data ++ CRLF ++ rest) (data ++ payload).
+
+Lemma valid_G0 wire payload : valid_chunked wire payload -> G0 wire payload.
+Proof.
+  induction 1 as [line Hne Hs|line data rest payload Hd Hs Hv IH].
+  - apply G0_last; assumption.
+  - apply G0_chunk; [exact Hd|exact Hs|]. apply G0_crlf. exact IH.
+Qed.
+
+(* chunked_decode_spec: for every valid chunked encoding (any chunk sizes, multi-KB chunks,
+   extensions, hex case, size lines up to the 4 KB line buffer), every partial body of at
+   most 4096 bytes, every fragmentation of the rest, every sequence of read sizes: no
+   out-of-range access and no fuel exhaustion, the results concatenate to the payload prefix,
+   each has the length it reports, and once more than the payload was asked for the stream
+   is finished and every further read returns 0. *)
+Lemma chunked_decode_spec_proof :
+  forall (wire payload partial : bytes) (ps : pieces) (counts : list Z),
+    valid_chunked wire payload -> partial ++ concat ps = wire -> zlen partial <= LINE_BUFFER_SIZE ->
+    Forall (fun c => 0 <= c) counts ->
+    exists l s', crs_run (crs_init LINE_BUFFER_SIZE partial ps false) counts = Some (l, s')
+      /\ outs l = ztake (zsum counts) payload
+      /\ Forall2 (fun r o => r = zlen o) (rets l) (map snd l)
+      /\ (zlen payload < zsum counts ->
+          c_finish s' = true /\ forall c, crs_read s' c = Some (0, [], s')).
+Proof.
+  intros wire payload partial ps counts Hv Hw Hp Hall.
+  assert (HPost : Post (crs_init LINE_BUFFER_SIZE partial ps false) payload).
+  { right. pose proof (zlen_nonneg partial). split.
+    - unfold Inv, WF, inp, lsize. cbn [crs_init c_line c_cursor c_cap c_err c_finish c_ps c_remain].
+      rewrite zdrop_nonpos by lia. splits; auto; try lia. apply GR_0. rewrite Hw. apply valid_G0. exact Hv.
+    - unfold RemOk. cbn. unfold W64. lia. }
+  destruct (crs_run_spec counts _ payload HPost Hall) as (l & s' & E & Ho & Hf & _ & Hfin).
+  exists l, s'. splits; auto. intros Hlt. specialize (Hfin Hlt). split; [exact Hfin|].
+  intros c. apply crs_read_finished. exact Hfin.
 Qed.
